@@ -102,8 +102,33 @@ def _instantiate_bin1d(c, e, kx, ky):
     return rx, ry
 
 
+def directed_lattices(oracle_name, **kw):
+    """concrete lattices (conventions of rt/oracles_grid.py): a full block, an L-shape with a hole, flagged-out cells, shuffled
+    cell order; probed at every cell edge +- a few ulps, in the holes and beyond the bounding box"""
+    def fam():
+        out = []
+        shapes = {'full': [[x, y] for x in range(3) for y in range(2)],
+                  'hole': [[0, 0], [1, 0], [2, 0], [0, 1], [2, 1], [0, 2], [1, 2], [2, 2]],
+                  'ell': [[0, 0], [1, 0], [0, 1], [0, 2]]}
+        for a, h in (([0.0, 0.0], 0.1), ([-125.4, 31.5], 0.1), ([12.345, -45.678], 0.25)):
+            for nm, cells in shapes.items():
+                for variant in range(3):
+                    cs = [list(c) for c in cells]
+                    lat = {'anchor': a, 'dh': h, 'cells': cs if variant != 1 else cs[::-1]}
+                    if variant == 2:
+                        lat['mask'] = [0 if k % 3 == 1 else 1 for k in range(len(cs))]
+                    else:
+                        lat['ctor'] = ['polygons', 'from_origins'][variant]
+                    args = {'lattice': lat, 'probe': {'ulps': [1, 2], 'holes': True, 'beyond': True}}
+                    args.update(kw)
+                    out.append((oracle_name, args))
+        return out
+    return staticmethod(fam)
+
+
 @contract
 class GetIndexOf:
+    directed = directed_lattices('grid_lookup', each=120)
     qualname = 'csep.core.regions.CartesianGrid2D.get_index_of'
     case = 'arrays of points, region satisfying RI'
     oracle = 'region_get_index_of'
@@ -187,6 +212,7 @@ class GetIndexOf:
 
 @contract
 class GetMasked:
+    directed = directed_lattices('grid_lookup', each=60)
     qualname = 'csep.core.regions.CartesianGrid2D.get_masked'
     case = 'arrays of points, region satisfying RI'
     oracle = 'region_get_masked'
